@@ -624,6 +624,9 @@ func readSession(eng flows.Engine, sessionAssets flows.SessionAssets, data json.
 		if s.trigger, err = triggers.ReadTrigger(s.Assets(), e.Trigger, missing); err != nil {
 			return nil, fmt.Errorf("unable to read trigger: %w", err)
 		}
+
+		// whether this session is part of a batch start isn't persisted but comes from the trigger
+		s.batchStart = s.trigger.Batch()
 	}
 
 	// read our contact
